@@ -157,6 +157,11 @@ EXTRA = [
     "char *long_s = \"" + "a" * 5000 + "\";",
     "char *long_run = " + " ".join(['\"' + "b" * 300 + '\"'] * 20) + ";",
     "#pragma " + "p" * 5000 + "\nint after_long_pragma;",
+    # round 7
+    "typedef int T; typedef int U; struct S { struct { int m; int T; } U[2], a; }; unsigned long z = offsetof(struct S, U[1].T) + offsetof(struct S, a.T);",
+    "struct P { int a, b; }; void f(int x){ struct P p = { .a = (x++, x), 7 }; int v[3] = { [1] = (x, 2), 3 }; p = (struct P){ .b = (1, 2) }; }",
+    "_Alignas(4) _Alignas(16) char c16; struct A { _Alignas(2) _Alignas(8) char m; } sa;",
+    "void g(int a[const static 3], double m[restrict volatile static 2], int (*cb)(int [const static 4]));",
     # unnamed parameters whose first specifier is a tag specifier / qualifier / typedef name
     "struct S; void f(struct S, enum E *, union U [4]);",
     "typedef int T; void g(const struct S *, T, T *, volatile T [2], struct { int m; } *);",
